@@ -43,25 +43,33 @@ def run(ctx):
     ceemd = P.func('emd.sift.complete_ensemble_sift')
     eemd = P.func('emd.sift.ensemble_sift')
     ctx.trust('np.concatenate(axis=1) appends the columns of its second operand; .sum(axis=1) sums columns')
-    siftcore.rule_residual_invariant(ctx, 'C03.R1', sift, is_gni)
-    siftcore.rule_residual_invariant(ctx, 'C03.R1', msift, is_gnim, context=MASK_CTX)
-    rule_ceemd_invariant(ctx, 'C03.R1', ceemd)
-    rule_cap_independence(ctx, 'C03.R2', sift, is_gni, {})
-    rule_cap_independence(ctx, 'C03.R2', msift, is_gnim, MASK_CTX)
-    rule_cap_independence_ceemd(ctx, 'C03.R2', ceemd)
-    rule_cap_bound(ctx, 'C03.R3', sift, {})
-    rule_cap_bound(ctx, 'C03.R3', msift, MASK_CTX)
-    rule_cap_bound(ctx, 'C03.R3', ceemd, {'noise_mode': 'single'})
-    rule_ensemble_alloc(ctx, 'C03.R3', eemd)
-    rule_ragged_members(ctx, 'C03.R4', eemd)
-    rule_second_layer(ctx, 'C03.R5')
-    rule_layout(ctx, 'C03.R6')
-    siftcore.rule_no_clobber(ctx, 'C03.R8', sift, 'emd.sift.get_next_imf',
+    ctx.rule(siftcore.rule_residual_invariant, 'C03.R1', sift, is_gni)
+    ctx.rule(siftcore.rule_residual_invariant, 'C03.R1', msift, is_gnim, context=MASK_CTX)
+    ctx.rule(rule_ceemd_invariant, 'C03.R1', ceemd)
+    ctx.rule(rule_cap_independence, 'C03.R2', sift, is_gni, {})
+    ctx.rule(rule_cap_independence, 'C03.R2', msift, is_gnim, MASK_CTX)
+    ctx.rule(rule_cap_independence_ceemd, 'C03.R2', ceemd)
+    ctx.rule(rule_cap_bound, 'C03.R3', sift, {})
+    ctx.rule(rule_cap_bound, 'C03.R3', msift, MASK_CTX)
+    ctx.rule(rule_cap_bound, 'C03.R3', ceemd, {'noise_mode': 'single'})
+    ctx.rule(rule_ensemble_alloc, 'C03.R3', eemd)
+    ctx.rule(rule_ragged_members, 'C03.R4', eemd)
+    ctx.rule(rule_second_layer, 'C03.R5')
+    ctx.rule(rule_layout, 'C03.R6')
+    ctx.rule(siftcore.rule_no_clobber, 'C03.R8', sift, 'emd.sift.get_next_imf',
                              [{'stop_method': sm, 'energy_thresh': None} for sm in siftcore.STOP_METHODS])
-    siftcore.rule_no_clobber(ctx, 'C03.R8', msift, 'emd.sift.get_next_imf_mask', [{}])
+    ctx.rule(siftcore.rule_no_clobber, 'C03.R8', msift, 'emd.sift.get_next_imf_mask', [{}])
+    # every extraction rests on the strict extrema search (a plateau-reporting search makes the parabolic fit divide
+    # by zero or the padding loop spin: no finite component array)
+    from . import c05
+    ctx.rule(c05.rule_strict_search, 'C03.R10')
+    ctx.rule(siftcore.rule_through_layer_loop, 'C03.R9', sift, ('emd.sift.get_next_imf',))
+    ctx.rule(siftcore.rule_through_layer_loop, 'C03.R9', msift, ('emd.sift.get_next_imf_mask',), context=MASK_CTX)
+    ctx.rule(siftcore.rule_through_layer_loop, 'C03.R9', ceemd, ('emd.sift._sift_with_noise',),
+                                     context={'noise_mode': 'single'})
     # a cap (or any option) written into the caller's option dict is silently in force on the next call
     from .c06 import rule_no_replacement
-    rule_no_replacement(ctx, 'C03.R7', only={'emd.sift.sift_second_layer', 'emd.sift.mask_sift_second_layer',
+    ctx.rule(rule_no_replacement, 'C03.R7', only={'emd.sift.sift_second_layer', 'emd.sift.mask_sift_second_layer',
                                              'emd.sift.sift', 'emd.sift.mask_sift', 'emd.sift.ensemble_sift',
                                              'emd.sift.complete_ensemble_sift'})
 
